@@ -370,3 +370,89 @@ Proof.
   - right. exists (rev a), (rev b). split; [now rewrite rev_app_distr|].
     rewrite <- rev_app_distr, <- Hr. now rewrite rev_involutive.
 Qed.
+
+(* ================================================================== every mesh edge of a cell with a junction lies in an interface (C08) *)
+Definition adjacent (a b : Z) (l : list Z) : Prop := exists l1 l2, l = l1 ++ a :: b :: l2.
+(* a and b follow each other on the closed cycle *)
+Definition cyc_adjacent (a b : Z) (ids : list Z) : Prop := adjacent a b (ids ++ [headZ ids]).
+
+Lemma adjacent_cons a b x l : adjacent a b l -> adjacent a b (x :: l).
+Proof. intros [l1 [l2 ->]]. exists (x :: l1), l2. reflexivity. Qed.
+Lemma adjacent_app_l a b l r : adjacent a b l -> adjacent a b (l ++ r).
+Proof. intros [l1 [l2 ->]]. exists l1, (l2 ++ r). now rewrite <- app_assoc. Qed.
+Lemma adjacent_app_r a b l r : adjacent a b r -> adjacent a b (l ++ r).
+Proof. intros [l1 [l2 ->]]. exists (l ++ l1), l2. now rewrite <- app_assoc. Qed.
+Lemma adjacent_split a b : forall p h q, adjacent a b (p ++ h :: q) -> adjacent a b (p ++ [h]) \/ adjacent a b (h :: q).
+Proof.
+  induction p as [|x p IH]; intros h q H; [right; exact H|].
+  destruct H as [l1 [l2 E]]. destruct l1 as [|y l1].
+  - cbn [app] in E. injection E as -> E. destruct p as [|x' p'].
+    + cbn [app] in E. injection E as -> _. left. exists [], []. reflexivity.
+    + cbn [app] in E. injection E as -> _. left. exists [], (p' ++ [h]). reflexivity.
+  - cbn [app] in E. injection E as -> E.
+    destruct (IH h q (ex_intro _ l1 (ex_intro _ l2 E))) as [H|H]; [left; now apply adjacent_cons|right; exact H].
+Qed.
+Lemma adjacent_rev a b l : adjacent a b l -> adjacent b a (rev l).
+Proof. intros [l1 [l2 ->]]. exists (rev l2), (rev l1). rewrite rev_app_distr. cbn [rev]. now rewrite <- !app_assoc. Qed.
+
+(* closing a list of pieces covers every consecutive pair of their concatenation followed by the closing vertex *)
+Lemma close_with_covers a b : forall P z, Forall (fun p => p <> []) P -> P <> [] ->
+  adjacent a b (concat P ++ [z]) -> exists e, In e (close_with P (tl (map headZ P) ++ [z])) /\ adjacent a b e.
+Proof.
+  induction P as [|p P IH]; intros z HP Hne H; [congruence|]. inversion HP as [|? ? Hp HP']; subst.
+  destruct P as [|p' P].
+  - cbn [concat] in H. rewrite app_nil_r in H. exists (p ++ [z]). split; [left; reflexivity|exact H].
+  - inversion HP' as [|? ? Hp' _]; subst. destruct p' as [|h q]; [congruence|].
+    change (tl (map headZ (p :: (h :: q) :: P)) ++ [z]) with (h :: (tl (map headZ ((h :: q) :: P)) ++ [z])).
+    unfold close_with. cbn [combine map fst snd]. cbn [concat] in H. rewrite <- app_assoc in H. cbn [app] in H.
+    destruct (adjacent_split a b p h _ H) as [H1|H2].
+    + exists (p ++ [h]). split; [left; reflexivity|exact H1].
+    + destruct (IH z HP' ltac:(discriminate)) as [e [He Hab]].
+      * cbn [concat app]. rewrite <- app_assoc in H2. rewrite <- app_assoc. exact H2.
+      * exists e. split; [right; exact He|exact Hab].
+Qed.
+Lemma close_pieces_covers a b P : Forall (fun p => p <> []) P -> P <> [] ->
+  adjacent a b (concat P ++ [headZ (concat P)]) -> exists e, In e (close_pieces P) /\ adjacent a b e.
+Proof.
+  intros HP Hne H. destruct P as [|p P]; [congruence|]. inversion HP as [|? ? Hp _]; subst.
+  replace (headZ (concat (p :: P))) with (headZ p) in H by (destruct p; [congruence|reflexivity]).
+  exact (close_with_covers a b (p :: P) (headZ p) HP Hne H).
+Qed.
+
+(* cyclic adjacency does not depend on where the cycle starts *)
+Lemma cyc_adjacent_rot a b l1 l2 : cyc_adjacent a b (l1 ++ l2) -> cyc_adjacent a b (l2 ++ l1).
+Proof.
+  unfold cyc_adjacent. destruct l1 as [|x l1]; [now rewrite app_nil_r|]. destruct l2 as [|y l2]; [now rewrite app_nil_r|].
+  cbn [app headZ hd]. intros H.
+  (* x :: l1 ++ y :: l2 ++ [x]  versus  y :: l2 ++ x :: l1 ++ [y] *)
+  assert (E1 : x :: (l1 ++ y :: l2) ++ [x] = (x :: l1) ++ y :: (l2 ++ [x])) by (cbn [app]; now rewrite <- app_assoc).
+  rewrite E1 in H.
+  destruct (adjacent_split a b (x :: l1) y (l2 ++ [x]) H) as [H1|H2].
+  - assert (E2 : y :: (l2 ++ x :: l1) ++ [y] = (y :: l2) ++ ((x :: l1) ++ [y])) by (cbn [app]; now rewrite <- app_assoc).
+    rewrite E2. now apply adjacent_app_r.
+  - assert (E3 : y :: (l2 ++ x :: l1) ++ [y] = (y :: l2 ++ [x]) ++ (l1 ++ [y])) by (cbn [app]; rewrite <- !app_assoc; reflexivity).
+    rewrite E3. now apply adjacent_app_l.
+Qed.
+
+Theorem cell_edge_in_interface junc ids a b : existsb junc ids = true -> cyc_adjacent a b ids ->
+  exists e, In e (cell_interfaces junc ids) /\ adjacent a b e.
+Proof.
+  intros Hex Hab. destruct (rotated_is_rotation junc ids) as [l1 [l2 [H1 H2]]].
+  destruct (rotated_starts_with_junction junc ids Hex) as [x [t [Hr Jx]]].
+  rewrite cell_interfaces_unfold. set (P := tl (get_partition junc (rotated_ids junc ids))).
+  assert (HP : forallb (piece_ok junc) P = true) by apply partition_spec.
+  assert (HPc : concat P = rotated_ids junc ids) by (unfold P; rewrite Hr; now apply partition_tl_concat).
+  apply close_pieces_covers.
+  - now apply (piece_ok_nonempty junc).
+  - intro E. rewrite E in HPc. rewrite Hr in HPc. discriminate.
+  - rewrite HPc, H2. apply cyc_adjacent_rot. now rewrite <- H1.
+Qed.
+Theorem mesh_edge_in_interface junc cells c a b : In c cells -> existsb junc (snd c) = true -> cyc_adjacent a b (snd c) ->
+  exists f, In f (create_edges_new junc cells) /\ (adjacent a b f \/ adjacent b a f).
+Proof.
+  intros Hc Hex Hab. destruct (cell_edge_in_interface junc (snd c) a b Hex Hab) as [e [He Hadj]].
+  destruct (dedup_keeps_all (concat (map (fun c => cell_interfaces junc (snd c)) cells)) e) as [f [Hf Hs]].
+  - apply in_concat. exists (cell_interfaces junc (snd c)). split; [|exact He]. apply in_map_iff. exists c. split; [reflexivity|exact Hc].
+  - exists f. split; [exact Hf|]. destruct Hs as [-> | ->]; [left; exact Hadj|right].
+    apply adjacent_rev in Hadj. now rewrite rev_involutive in Hadj.
+Qed.
